@@ -48,6 +48,9 @@ pub enum Ev {
 	/// not an event: `config.filterer(..)` replaces the filterer at run time with one that
 	/// inverts the pass / reject verdicts
 	SwapFilter,
+	/// the same event *value* (equal tags and metadata, normal priority, passes the filter)
+	/// sent twice in a row: both are accepted events and both must reach the handler
+	NTwin,
 }
 
 pub const ALL_EV: [Ev; 9] = [Ev::NPass, Ev::NRej, Ev::NErr, Ev::NEmpty, Ev::LPass, Ev::HPass, Ev::HRej, Ev::URej, Ev::UEmpty];
@@ -81,6 +84,14 @@ impl Ev {
 	}
 	pub fn bypasses_filter(self) -> bool {
 		self.urgent() || self.empty()
+	}
+	/// how many equal events one script element stands for
+	pub fn mult(self) -> usize {
+		if self == Ev::NTwin {
+			2
+		} else {
+			1
+		}
 	}
 	pub fn fs(self) -> Option<(u8, u8)> {
 		match self {
@@ -566,7 +577,9 @@ async fn body(sc: &EvSc, bounds: Bounds, prop: &str) -> Obs {
 						None => w(|x| x.log.push(L::Note(format!("no live watcher for fs event #{id}")))),
 					}
 				} else {
-					let _ = txs[&p].send((id, ev));
+					for _ in 0..ev.mult() {
+						let _ = txs[&p].send((id, ev));
+					}
 				}
 			}
 			Act::Tick => {
@@ -740,8 +753,8 @@ fn c01_end(sc: &EvSc, main_done: bool) {
 		if !deliverable_at(sc, &log, *id) {
 			push(format!("C01/rejected-event-delivered/{c:?}"), format!("event #{id} ({c:?}) was handed to the handler although the filter in force rejects it"));
 		}
-		if *n > 1 {
-			push(format!("C01/delivered-twice/{c:?}"), format!("event #{id} ({c:?}) was delivered {n} times"));
+		if *n > c.mult() {
+			push(format!("C01/delivered-twice/{c:?}"), format!("event #{id} ({c:?}, sent {} times) was delivered {n} times", c.mult()));
 		}
 	}
 	if !main_done {
@@ -750,8 +763,13 @@ fn c01_end(sc: &EvSc, main_done: bool) {
 			// with a never-ending window whatever no urgent event flushed is legitimately
 			// still being collected at the end
 			let never_ending = sc.throttle >= HUGE && sc.throttle_change.map_or(true, |t| t >= HUGE);
-			if deliverable_at(sc, &log, *id) && !delivered.contains_key(id) && !never_ending {
-				push(format!("C01/accepted-event-lost/{c:?}"), format!("event #{id} ({c:?}) was accepted into the queue but never delivered"));
+			let n_acc = accepted.iter().filter(|a| *a == id).count();
+			let n_del = delivered.get(id).copied().unwrap_or(0);
+			if deliverable_at(sc, &log, *id) && n_del < n_acc && !never_ending {
+				push(
+					format!("C01/accepted-event-lost/{c:?}"),
+					format!("event #{id} ({c:?}) was accepted into the queue {n_acc} time(s) but delivered {n_del} time(s)"),
+				);
 			}
 		}
 	}
@@ -1165,6 +1183,20 @@ pub fn scenarios(prop: &str, tier: Tier) -> Vec<(EvSc, Vec<Bounds>)> {
 		_ => {}
 	}
 	if prop == "C01" {
+		// equal event values in a row (same tags, same metadata): each is an accepted event
+		let alpha = [Ev::NTwin, Ev::NPass, Ev::URej];
+		for s in upto(&alpha, 2) {
+			if !s.contains(&Ev::NTwin) {
+				continue;
+			}
+			for thr in [0u64, 2] {
+				for gated in [false, true] {
+					let mut sc = EvSc::base(s.iter().map(|e| (*e, 0)).collect(), thr);
+					sc.gated = gated;
+					out.push((sc, ladder(1)));
+				}
+			}
+		}
 		// a filterer replaced at run time is the configured filter from then on (default
 		// schedule only: the event is filtered at the quiescent instant of its send)
 		let alpha = [Ev::NPass, Ev::NRej, Ev::HRej, Ev::SwapFilter];
